@@ -130,10 +130,12 @@ def make_stub_class():
     from syne_tune.optimizer.schedulers.searchers.bayesopt.models.model_base import BasePredictor
 
     class StubPredictor(BasePredictor):
-        def __init__(self, metric, mean, std, cand, mean_2d=True, keys=("mean", "std")):
+        def __init__(self, metric, mean, std, cand, mean_2d=True, keys=("mean", "std"), extra_rows=None):
             super().__init__(state=None, active_metric=metric)
             self.mean = np.asarray(mean, dtype=float).reshape(-1)
             self.std = float(std)
+            # further input points of the same compute_acq call: [(means, std), ...] for rows 1, 2, ...
+            self.extra_rows = [(np.asarray(m, dtype=float).reshape(-1), float(sd)) for m, sd in (extra_rows or [])]
             self.cand = np.asarray(cand, dtype=float)
             self.mean_2d = mean_2d or self.mean.size > 1
             self.keys = set(keys)
@@ -148,6 +150,14 @@ def make_stub_class():
             res = {"mean": mean.copy()}
             if "std" in self.keys:
                 res["std"] = np.full((n,), self.std)
+            for r, (m, sd) in enumerate(self.extra_rows, start=1):
+                if r < n:
+                    if self.mean_2d:
+                        res["mean"][r, :] = m
+                    else:
+                        res["mean"][r] = m[0]
+                    if "std" in self.keys:
+                        res["std"][r] = sd
             return [res]
 
         def predict_mean_current_candidates(self):
@@ -160,13 +170,17 @@ def make_stub_class():
     return StubPredictor
 
 
+# predictive stds around the floor 1e-10 that get_quantiles applies IN PLACE (the heads multiply the floored array)
+STD_FLOOR_VALUES = [0.0, 1e-300, 1e-12, 9.9e-11, 1e-10, 1.1e-10]
+
+
 def gen_head_spec(rng, head, tail=False):
     """tail=True: every fantasy column many predictive standard deviations WORSE than its incumbent,
     u = (incumbent - mean - jitter) / std in [-12, -5] (sometimes down to -30): the lower tail of Phi"""
     nf = rng.choice([1, 1, 2, 3, 5])
     std = rng.choice([rng.uniform(0.05, 3.0), rng.uniform(0.05, 3.0), rng.uniform(0.3, 1.0), 10 ** rng.uniform(-2, 1)])
-    if rng.random() < 0.04 and not tail:
-        std = rng.choice([5e-11, 1e-12, 0.0])  # below the clamp of get_quantiles
+    if rng.random() < 0.10 and not tail:
+        std = rng.choice(STD_FLOOR_VALUES)  # at / below / just above the floor of get_quantiles
     means = [rng.gauss(0, 2) for _ in range(nf)]
     s_eff = max(std, STD_MIN) if std >= 1e-3 else 1.0
     nobs = rng.randint(1, 4)
@@ -178,6 +192,11 @@ def gen_head_spec(rng, head, tail=False):
         cand = [[m + jitter + u * std for m, u in zip(means, ut)]]
     spec = dict(head=head, nf=nf, means=means, std=std, cand=cand, mean_2d=rng.random() < 0.5,
                 jitter=jitter, tail=bool(tail))
+    if not tail and rng.random() < 0.25:
+        # more input points in the same compute_acq call, floored and ordinary stds mixed point by point
+        spec["extra_rows"] = [([m + rng.gauss(0, 1) for m in means],
+                               rng.choice(STD_FLOOR_VALUES + [rng.uniform(0.05, 2.0), rng.uniform(0.05, 2.0)]))
+                              for _ in range(rng.randint(1, 3))]
     if head == "lcb":
         spec["kappa"] = rng.choice([1.0, 0.3, 2.5, rng.uniform(0.1, 4)])
     if head in ("eipu", "cei"):
@@ -187,6 +206,8 @@ def gen_head_spec(rng, head, tail=False):
         if kind == "many":  # secondary model has fantasies, the active one broadcasts
             spec["nf"], nf = 1, 1
             spec["means"] = means[:1]
+            if spec.get("extra_rows"):
+                spec["extra_rows"] = [(m[:1], sd) for m, sd in spec["extra_rows"]]
             spec["cand"] = [row[:1] for row in cand]
         spec["nf2"] = nf2
     if head == "eipu":
@@ -217,7 +238,8 @@ def gen_head_spec(rng, head, tail=False):
 def build_acq(spec, Stub, M):
     """Returns (acq, predictors dict, order of outputs)."""
     head = spec["head"]
-    act = Stub("active", spec["means"], spec["std"], spec["cand"], mean_2d=spec["mean_2d"])
+    act = Stub("active", spec["means"], spec["std"], spec["cand"], mean_2d=spec["mean_2d"],
+               extra_rows=spec.get("extra_rows"))
     if head == "ei":
         return M.EIAcquisitionFunction(act, jitter=spec["jitter"]), {"active": act}
     if head == "lcb":
@@ -241,8 +263,13 @@ def eval_head(spec, Stub, M):
         v1 = float(np.asarray(acq.compute_acq(x.reshape(1, -1))).reshape(-1)[0])
         acq2, preds2 = build_acq(spec, Stub, M)
         v2, _ = acq2.compute_acq_with_gradient(x)
+        v_rows = None
+        if spec.get("extra_rows"):   # one call on several input points with different predictive stds
+            acq3, _ = build_acq(spec, Stub, M)
+            v_rows = np.asarray(acq3.compute_acq(np.tile(x.reshape(1, -1), (1 + len(spec["extra_rows"]), 1))),
+                                dtype=float).reshape(-1)
     grads = {name: p.captured[0] for name, p in preds2.items()}
-    return dict(v1=v1, v2=float(v2), grads=grads)
+    return dict(v1=v1, v2=float(v2), grads=grads, v_rows=v_rows)
 
 
 def head_value(spec, Stub, M, **override):
@@ -338,10 +365,23 @@ def run_heads(ctx, specs):
                 ctx.violation("property", "%s: returned %s = %r but central differences of the head value give %r" % (
                     head, name, g, fd), case=case, signature=dict(sig, gradient=name.split("[")[0]))
 
-        if not clamp_std:
+        def at_kink(k):
+            # with a (floored) std far below the finite-difference step, EI as a function of mean_k is a hinge of
+            # width ~std at incumbent - jitter: central differences are meaningless across it
+            if head == "lcb" or s_eff >= 1e-3 or np.isnan(bests[k]):
+                return False
+            return abs(bests[k] - spec["means"][k] - spec["jitter"]) < 20.0 * 1e-4 * max(1.0, abs(spec["means"][k]))
+        if True:
             for k in range(nf):
+                if at_kink(k):
+                    ctx.h("fd_checks", "skipped: hinge inside the step")
+                    continue
+                # also below the std floor: the head is a smooth function of the means there (floored std)
                 fd_check("dh_dmean[%d]" % k, "means", k, spec["means"][k], float(ga["mean"][k]))
-            fd_check("dh_dstd", "std", 0, spec["std"], float(ga["std"][0]), lo=STD_MIN)
+            if head == "lcb":
+                fd_check("dh_dstd", "std", 0, spec["std"], float(ga["std"][0]))
+            elif not clamp_std:
+                fd_check("dh_dstd", "std", 0, spec["std"], float(ga["std"][0]), lo=STD_MIN)
             if head == "eipu":
                 gc = out["grads"]["cost"]
                 for k in range(nf2):
@@ -367,37 +407,61 @@ def run_heads(ctx, specs):
             if not abs(-out["v1"] - closed) <= 1e-7 * max(1.0, abs(closed)):
                 ctx.violation("property", "EI head %r differs from integrated E[max(0,.)] = %r" % (-out["v1"], closed),
                               case=case, signature=dict(sig, defect="ei_closed_form"))
-        if head in ("ei", "eipu", "cei") and not clamp_std:
-            # RELATIVE comparison with the closed form s (u Phi(u) + phi(u)) evaluated with the tail-accurate
-            # scipy.special.ndtr (absolute errors of order 1e-16 in Phi are visible for u << 0), and of
-            # dh/dmean against the tail-accurate Phi
+        if head in ("ei", "eipu", "cei"):
+            # RELATIVE comparison with the closed form s (u Phi(u) + phi(u)), s = the predictive std FLOORED at 1e-10
+            # as get_quantiles does, evaluated with the tail-accurate scipy.special.ndtr (absolute errors of order
+            # 1e-16 in Phi are visible for u << 0), and of dh/dmean against the tail-accurate Phi
             from scipy.special import ndtr
             Nn = max(nf, nf2) if head != "ei" else nf
-            bm_, bb_ = bcast(means, Nn), bcast(bests, Nn)
+            bb_ = bcast(bests, Nn)
             feas_ = ~np.isnan(bb_)
-            u_ = (np.where(feas_, bb_, 0.0) - bm_ - spec["jitter"]) / s_eff
-            ei_ = s_eff * (u_ * ndtr(u_) + norm.pdf(u_))
             if head == "eipu":
                 w_ = np.power(np.maximum(bcast(spec["costs"], Nn), M.MIN_COST), -spec["expo"])
             elif head == "cei":
                 w_ = ndtr(-bcast(spec["means_c"], Nn) / (spec["std_c"] + M.MIN_STD_CONSTRAINT))
             else:
                 w_ = np.ones(Nn)
-            terms = np.where(feas_, ei_ * w_, w_)
-            closed = float(np.mean(terms))
+
+            def closed_for(means_row, std_row):
+                sf = max(float(std_row), STD_MIN)
+                uu = (np.where(feas_, bb_, 0.0) - bcast(means_row, Nn) - spec["jitter"]) / sf
+                ei = sf * (uu * ndtr(uu) + norm.pdf(uu))
+                return float(np.mean(np.where(feas_, ei * w_, w_))), uu
+
+            closed, u_ = closed_for(means, spec["std"])
             umin = float(np.min(np.where(feas_, u_, 0.0)))
+            floored = bool(spec["std"] < STD_MIN)
             ctx.h("u_quantile_min", "<-12" if umin < -12 else "<-7" if umin < -7 else "<-4" if umin < -4 else ">=-4")
+            ctx.h("std_vs_floor", "below 1e-10" if floored else "at 1e-10" if spec["std"] == STD_MIN else "above")
             if not abs(-out["v1"] - closed) <= 1e-6 * abs(closed) + 1e-300:
-                ctx.violation("property", "%s: head value %r deviates RELATIVELY from the closed form %r (min u = %.3f)" % (
-                    head, -out["v1"], closed, umin), case=case,
-                    signature=dict(sig, defect="ei_closed_form_relative", tail=bool(umin < -6)))
+                ctx.violation("property", "%s: head value %r deviates RELATIVELY from the closed form %r (std = %r%s, min u = %.3g)" % (
+                    head, -out["v1"], closed, spec["std"], " floored at 1e-10" if floored else "", umin), case=case,
+                    signature=dict(sig, defect="ei_closed_form_relative", tail=bool(umin < -6), std_below_floor=floored))
             dm_terms = np.where(feas_, ndtr(u_) * w_, 0.0)
             exp_dm = dm_terms / nf if nf > 1 else np.array([float(np.mean(dm_terms))])
             got_dm = np.asarray(ga["mean"], dtype=float).reshape(-1)
             if got_dm.shape != exp_dm.shape or not np.all(np.abs(got_dm - exp_dm) <= 1e-6 * np.abs(exp_dm) + 1e-300):
-                ctx.violation("property", "%s: dh/dmean %r deviates RELATIVELY from the tail-accurate Phi(u) form %r (min u = %.3f)" % (
+                ctx.violation("property", "%s: dh/dmean %r deviates RELATIVELY from the tail-accurate Phi(u) form %r (min u = %.3g)" % (
                     head, got_dm.tolist(), exp_dm.tolist(), umin), case=case,
-                    signature=dict(sig, defect="dh_dmean_relative", tail=bool(umin < -6)))
+                    signature=dict(sig, defect="dh_dmean_relative", tail=bool(umin < -6), std_below_floor=floored))
+            if out.get("v_rows") is not None:
+                # several input points in ONE compute_acq call, floored and ordinary stds mixed point by point
+                rows = [(means, spec["std"])] + [(np.asarray(m, dtype=float), sd) for m, sd in spec["extra_rows"]]
+                for r, (mr, sr) in enumerate(rows):
+                    cr, _ = closed_for(mr, sr)
+                    ctx.h("batch_row_std_vs_floor", "below 1e-10" if sr < STD_MIN else "at/above")
+                    if not abs(-out["v_rows"][r] - cr) <= 1e-6 * abs(cr) + 1e-300:
+                        ctx.violation("property", "%s: compute_acq on %d points, point %d (std = %r): value %r deviates from the "
+                                      "closed form with the floored std %r" % (head, len(rows), r, sr, -out["v_rows"][r], cr),
+                                      case=case, signature=dict(sig, defect="ei_closed_form_relative", batch=True,
+                                                                std_below_floor=bool(sr < STD_MIN)))
+        if head == "lcb" and out.get("v_rows") is not None:
+            rows = [(means, spec["std"])] + [(np.asarray(m, dtype=float), sd) for m, sd in spec["extra_rows"]]
+            for r, (mr, sr) in enumerate(rows):
+                cr = float(np.mean(mr)) - sr * spec["kappa"]
+                if not abs(out["v_rows"][r] - cr) <= 1e-12 * (float(np.mean(np.abs(mr))) + abs(sr * spec["kappa"])) + 1e-300:
+                    ctx.violation("property", "lcb: compute_acq on %d points, point %d: value %r differs from mean - kappa std = %r" % (
+                        len(rows), r, out["v_rows"][r], cr), case=case, signature=dict(sig, defect="lcb_value", batch=True))
 
         # ---- correspondence with the PrimFloat evaluation of model/AcqHead.v --------------------
         C = cfg_term(M, spec)
